@@ -20,7 +20,9 @@
 (*                              wild-card: it cannot be recomputed)        *)
 (*   k marked and not cached -> Miss(k, save): evaluate the node (children *)
 (*                              are visited in between); Save(k) at the    *)
-(*                              end iff save                               *)
+(*                              end iff save - unless the node returns     *)
+(*                              through a shortcut that does not store:    *)
+(*                              Shortcut(k)                                *)
 (*   k not marked            -> nothing (not an action of this module)     *)
 (* `save` is decided by the scope rule (no enclosing restricted quantifier *)
 (* whose variable is not free in the sub-formula); here it is an input.    *)
@@ -63,6 +65,15 @@ Save(k) ==
   /\ cache' = cache \cup {k} /\ saved' = saved \cup {k}
   /\ stack' = SubSeq(stack, 1, Len(stack) - 1)
   /\ UNCHANGED <<duplicates, hits>>
+
+(* Two shortcuts of eval_node return at once WITHOUT storing, even if the node is marked and the save rule   *)
+(* said yes: the steady-state pattern `!{x}: AX {x}` (its value is the pre-computed steady-state set) and    *)
+(* a quantifier whose restricted domain is empty.  (The attractor pattern does store.)  Found by            *)
+(* Trace_Cache: the first version of this module had no such action and rejected those traces.              *)
+Shortcut(k) ==
+  /\ stack # <<>> /\ stack[Len(stack)] = k
+  /\ stack' = SubSeq(stack, 1, Len(stack) - 1)
+  /\ UNCHANGED <<duplicates, cache, hits, saved>>
 
 (* what was left after a fetch, and whether the entry went: the two fields the hook logs with a hit *)
 LeftOf(k)   == IF k \in Marked THEN duplicates[k] ELSE 0
